@@ -175,8 +175,14 @@ func RunC12(c *sim.Ctx, pkg *C12Pkg) {
 		// a re-opened 4-tuple: once the connection has been closed by the FINs
 		// of all its directions, the same addresses and ports are used again
 		reopen := !split && !closingFlush && (ndir == 2 || !pkg.Bidir) && c.Chance(250)
+		// (with packets split across workers nothing orders the two
+		// incarnations: no barrier, no completeness demand - only the rules that
+		// hold for every interleaving)
+		reopenFree := split && (ndir == 2 || !pkg.Bidir) && c.Chance(300)
 		for inc := 0; inc < 2; inc++ {
-			if inc == 1 {
+			if inc == 1 && reopenFree {
+				c.Fault("connection_reopened_unordered")
+			} else if inc == 1 {
 				if !reopen {
 					break
 				}
@@ -205,7 +211,7 @@ func RunC12(c *sim.Ctx, pkg *C12Pkg) {
 			}
 			for side := 0; side < ndir; side++ {
 				d := &Dir{Idx: len(p.Dirs), Conn: ci, Side: side, Inc: inc, End: 2}
-				if inc == 1 {
+				if inc == 1 && !reopenFree {
 					next[d.Idx-ndir] = d.Idx
 				}
 				src := []byte{10, 0, 0, byte(ci + 1)}
@@ -446,6 +452,12 @@ func checkC12(c *sim.Ctx, h *C12, evs []coop.Event, pkg *C12Pkg, split bool, mus
 		if len(data) >= 4 && !bytes.Contains(d.S, data) {
 			for _, o := range p.Dirs {
 				if o != d && bytes.Contains(o.S, data) {
+					if split && o.Conn == d.Conn && o.Side == d.Side {
+						// the same endpoint's bytes of another incarnation of the
+						// 4-tuple, with nothing ordering the incarnations: the
+						// connection cannot tell them apart
+						return
+					}
 					c.Fail("in-order", "cross-stream-delivery", "delivery", "stream %d (direction %d) received %d bytes that belong to direction %d", st.id, d.Idx, len(data), o.Idx)
 				}
 			}
